@@ -199,7 +199,7 @@ func mkLinear(q bool, name string, off int, cells []alphabet.QLetter) seq.Sequen
 
 // ---- views
 
-func compare(c container, m *model) string {
+func compare(c container, m *model) (msg string) {
 	rows := func() int {
 		switch v := c.(type) {
 		case *multi.Multi:
@@ -233,9 +233,42 @@ func compare(c container, m *model) string {
 			return fmt.Sprintf("row %d spans [%d,%d), model [%d,%d)", i, r.Start(), r.End(), mr.off, mr.off+len(mr.cells))
 		}
 	}
+	// every column view is kept until all of them, and one of a clone made afterwards, have been
+	// fetched: a view handed out must not change under a later call
+	type heldCol struct {
+		p    int
+		col  []alphabet.Letter
+		qcol []alphabet.QLetter
+		was  string
+	}
+	var held []heldCol
+	snap := func(col []alphabet.Letter, qcol []alphabet.QLetter) string {
+		return fmt.Sprintf("%q %v", alphabet.LettersToBytes(col), qcol)
+	}
+	defer func() {
+		if msg != "" {
+			return
+		}
+		if cc, ok := c.(interface{ Clone() seq.Sequence }); ok && hi > lo {
+			if cl, ok := cc.Clone().(interface {
+				Column(int, bool) []alphabet.Letter
+				ColumnQL(int, bool) []alphabet.QLetter
+			}); ok {
+				cl.Column(hi-1, true)
+				cl.ColumnQL(hi-1, true)
+			}
+		}
+		for _, h := range held {
+			if now := snap(h.col, h.qcol); now != h.was {
+				msg = fmt.Sprintf("the views returned by Column(%d)/ColumnQL(%d) changed from %s to %s under later Column calls on the container and its clone", h.p, h.p, h.was, now)
+				return
+			}
+		}
+	}()
 	for p := lo; p < hi; p++ {
 		col := c.Column(p, true)
 		qcol := c.ColumnQL(p, true)
+		held = append(held, heldCol{p, col, qcol, snap(col, qcol)})
 		if len(col) != rows || len(qcol) != rows {
 			return fmt.Sprintf("column %d has %d letters / %d quality letters for %d rows", p, len(col), len(qcol), rows)
 		}
